@@ -324,25 +324,31 @@ Proof.
   rewrite <- !pfilter_and. unfold pfilter. apply filter_ext. intros x. apply andb_comm.
 Qed.
 
+Lemma matches_cons (on : row -> bool) l r b :
+  matches on l (r :: b) = (if on (l ++ r) then [l ++ r] else []) ++ matches on l b.
+Proof. reflexivity. Qed.
+
 Lemma filter_matches_const (p on : row -> bool) l b c :
   (forall r, p (l ++ r) = c) -> filter p (matches on l b) = if c then matches on l b else [].
 Proof.
-  intros Hp. unfold matches. induction b as [|r b IH]; [destruct c; reflexivity|]. cbn.
-  rewrite filter_app, IH. destruct (on (l ++ r)); cbn; [rewrite Hp|]; destruct c; reflexivity.
+  intros Hp. induction b as [|r b IH]; [destruct c; reflexivity|]. rewrite matches_cons.
+  rewrite filter_app, IH. destruct (on (l ++ r)); cbn [filter app]; [rewrite Hp|]; destruct c; reflexivity.
 Qed.
 
 Lemma matches_and (p on : row -> bool) l b :
   matches (fun x => on x && p x) l b = filter p (matches on l b).
 Proof.
-  unfold matches. induction b as [|r b IH]; [reflexivity|]. cbn. rewrite filter_app, IH.
-  destruct (on (l ++ r)); cbn; [destruct (p (l ++ r))|]; reflexivity.
+  induction b as [|r b IH]; [reflexivity|]. rewrite !matches_cons. rewrite filter_app, IH.
+  destruct (on (l ++ r)); cbn [andb filter app]; [destruct (p (l ++ r))|]; reflexivity.
 Qed.
 
 Lemma matches_filter_right (p on : row -> bool) (pr : row -> bool) l b :
   (forall r, p (l ++ r) = pr r) -> filter p (matches on l b) = matches on l (filter pr b).
 Proof.
-  intros Hp. unfold matches. induction b as [|r b IH]; [reflexivity|]. cbn. rewrite filter_app, IH.
-  rewrite <- Hp. destruct (on (l ++ r)) eqn:Hon; cbn; destruct (p (l ++ r)) eqn:Hpp; cbn; rewrite ?Hon; reflexivity.
+  intros Hp. induction b as [|r b IH]; [reflexivity|]. rewrite matches_cons. cbn [filter].
+  rewrite filter_app, IH, <- Hp.
+  destruct (on (l ++ r)) eqn:Hon; cbn [filter app]; destruct (p (l ++ r)) eqn:Hpp;
+    rewrite ?matches_cons, ?Hon; reflexivity.
 Qed.
 
 Definition reads_left (la : nat) (p pl : row -> bool) : Prop :=
@@ -430,15 +436,19 @@ Qed.
 Lemma pjoin_semi_filter la ra pl on a b :
   pfilter pl (pjoin JSemi a b la ra on) = pjoin JSemi (pfilter pl a) b la ra on.
 Proof.
-  unfold pfilter. cbn [pjoin]. induction a as [|x a IH]; [reflexivity|]. cbn.
-  rewrite filter_app, IH. destruct (existsb (fun r => on (x ++ r)) b); destruct (pl x) eqn:Hp; cbn; rewrite ?Hp; reflexivity.
+  unfold pfilter. cbn [pjoin]. induction a as [|x a IH]; [reflexivity|]. cbn [flat_map filter].
+  rewrite filter_app, IH.
+  destruct (pl x) eqn:Hp; destruct (existsb (fun r => on (x ++ r)) b) eqn:He;
+    cbn [flat_map filter app]; rewrite ?Hp, ?He; reflexivity.
 Qed.
 
 Lemma pjoin_anti_filter la ra pl on a b :
   pfilter pl (pjoin JAnti a b la ra on) = pjoin JAnti (pfilter pl a) b la ra on.
 Proof.
-  unfold pfilter. cbn [pjoin]. induction a as [|x a IH]; [reflexivity|]. cbn.
-  rewrite filter_app, IH. destruct (existsb (fun r => on (x ++ r)) b); destruct (pl x) eqn:Hp; cbn; rewrite ?Hp; reflexivity.
+  unfold pfilter. cbn [pjoin]. induction a as [|x a IH]; [reflexivity|]. cbn [flat_map filter].
+  rewrite filter_app, IH.
+  destruct (pl x) eqn:Hp; destruct (existsb (fun r => on (x ++ r)) b) eqn:He;
+    cbn [flat_map filter app]; rewrite ?Hp, ?He; reflexivity.
 Qed.
 
 Lemma pmark_filter_left p pl on a b :
@@ -482,7 +492,7 @@ Proof.
     (* x is rejected: removing the rows equal to x from the kept rows removes nothing *)
     rewrite (filter_ext_in (fun y => negb (row_same x y)) (fun _ => true)).
     + clear. induction (dedup_rows (filter p r)) as [|y l IH]; [reflexivity|]. cbn. rewrite IH. reflexivity.
-    + intros y Hy. apply dedup_rows_In in Hy. apply filter_In in Hy as [_ Hpy].
+    + intros y Hy. apply (proj1 (dedup_rows_In _ _)) in Hy. apply filter_In in Hy as [_ Hpy].
       destruct (row_same x y) eqn:Hs; [|reflexivity]. apply row_same_eq in Hs. congruence.
 Qed.
 
@@ -540,3 +550,81 @@ Proof.
   - apply in_firstn' in Hx. eapply in_skipn'; eauto.
   - eapply in_skipn'; eauto.
 Qed.
+
+(* ---------------------------------------------------------------- membership in joins *)
+
+Lemma matches_In on l b x : In x (matches on l b) -> exists r, In r b /\ x = l ++ r /\ on (l ++ r) = true.
+Proof.
+  unfold matches. intros H. apply in_flat_map in H as [r [Hr Hx]].
+  destruct (on (l ++ r)) eqn:Hon; [|destruct Hx]. destruct Hx as [<-|[]]. eauto.
+Qed.
+
+Lemma pjoin_inner_In la ra on a b x :
+  In x (pjoin JInner a b la ra on) -> exists l r, In l a /\ In r b /\ x = l ++ r.
+Proof.
+  cbn [pjoin]. intros H. apply in_flat_map in H as [l [Hl Hx]].
+  apply matches_In in Hx as [r [Hr [-> _]]]. eauto.
+Qed.
+
+Lemma pjoin_left_In la ra on a b x :
+  In x (pjoin JLeft a b la ra on) -> exists l, In l a /\ ((exists r, In r b /\ x = l ++ r) \/ x = l ++ nulls ra).
+Proof.
+  cbn [pjoin]. intros H. apply in_flat_map in H as [l [Hl Hx]]. exists l. split; [exact Hl|].
+  destruct (matches on l b) as [|m ms] eqn:Hm.
+  - destruct Hx as [<-|[]]. right. reflexivity.
+  - rewrite <- Hm in Hx. apply matches_In in Hx as [r [Hr [-> _]]]. left. eauto.
+Qed.
+
+Lemma rcross_In a b x : In x (rcross a b) -> exists l r, In l a /\ In r b /\ x = l ++ r.
+Proof.
+  unfold rcross. intros H. apply in_flat_map in H as [l [Hl Hx]]. apply in_map_iff in Hx as [r [<- Hr]]. eauto.
+Qed.
+
+Lemma pfilter_incl p r : incl (pfilter p r) r.
+Proof. intros x Hx. apply filter_In in Hx. tauto. Qed.
+
+Lemma arity_filter la p a : arity la a -> arity la (pfilter p a).
+Proof.
+  unfold arity, pfilter. rewrite !Forall_forall. intros H x Hx. apply H. apply filter_In in Hx. tauto.
+Qed.
+
+Lemma pairs_total_incl on a a' b b' : incl a' a -> incl b' b -> pairs_total on a b -> pairs_total on a' b'.
+Proof. intros Ha Hb Ht l r Hl Hr. apply Ht; auto. Qed.
+
+Lemma pfilter_ext_in (p q : list value -> bool) r : (forall x, In x r -> p x = q x) -> pfilter p r = pfilter q r.
+Proof. apply filter_ext_in. Qed.
+
+Lemma pjoin_ext_in k a b la ra (on on' : list value -> bool) :
+  (forall l r, In l a -> In r b -> on (l ++ r) = on' (l ++ r)) ->
+  pjoin k a b la ra on = pjoin k a b la ra on'.
+Proof.
+  intros He.
+  assert (Hm : forall l, In l a -> matches on l b = matches on' l b).
+  { intros l Hl. unfold matches. apply flat_map_ext_in. intros r Hr. rewrite (He l r Hl Hr). reflexivity. }
+  assert (Hx : forall l, In l a -> existsb (fun r => on (l ++ r)) b = existsb (fun r => on' (l ++ r)) b).
+  { intros l Hl. clear Hm. induction b as [|r b IH]; [reflexivity|]. cbn [existsb].
+    rewrite (He l r Hl (or_introl eq_refl)), IH; [reflexivity|]. intros l' r' Hl' Hr'. apply He; [exact Hl'|right; exact Hr']. }
+  destruct k; cbn [pjoin].
+  - apply flat_map_ext_in. exact Hm.
+  - apply flat_map_ext_in. exact Hm.
+  - apply flat_map_ext_in. intros l Hl. rewrite (Hm l Hl). reflexivity.
+  - apply flat_map_ext_in. intros r Hr.
+    rewrite (flat_map_ext_in (fun l => if on (l ++ r) then [l ++ r] else []) (fun l => if on' (l ++ r) then [l ++ r] else [])); [reflexivity|].
+    intros l Hl. rewrite (He l r Hl Hr). reflexivity.
+  - apply flat_map_ext_in. intros l Hl. rewrite (Hx l Hl). reflexivity.
+  - apply flat_map_ext_in. intros l Hl. rewrite (Hx l Hl). reflexivity.
+Qed.
+
+(* ---------------------------------------------------------------- conjunction of collapsed predicates *)
+
+Lemma pand_total_on (p q : list value -> res bool) r : total_on (pand p q) r <-> total_on p r /\ total_on q r.
+Proof.
+  unfold total_on, pand. split.
+  - intros H. split; intros x Hx; destruct (H x Hx) as [v Hv]; destruct (p x); cbn [bind] in Hv; try discriminate;
+      destruct (q x); cbn [bind] in Hv; try discriminate; eauto.
+  - intros [Hp Hq] x Hx. destruct (Hp x Hx) as [a ->], (Hq x Hx) as [b ->]. cbn [bind]. eauto.
+Qed.
+
+Lemma pure_of_pand (p q : list value -> res bool) x :
+  (exists a, p x = Ok a) -> (exists b, q x = Ok b) -> pure_of (pand p q) x = pure_of p x && pure_of q x.
+Proof. intros [a Ha] [b Hb]. unfold pure_of, pand. rewrite Ha, Hb. reflexivity. Qed.
